@@ -210,6 +210,10 @@ func (ph *ptraceHandle) handle(pid int, wstatus unix.WaitStatus) (status runner.
 				if ph.execved {
 					// give the customized handle for syscall
 					err := ph.handleTrap(pid)
+					if err == unix.ESRCH {
+						// tracee was killed while it sat in this stop (e.g. the run was cancelled), its termination is reported by the next wait4
+						return
+					}
 					if err != nil {
 						status = runner.StatusDisallowedSyscall
 						errStr = err.Error()
